@@ -28,7 +28,7 @@ for patch in "$HERE"/mutants/*${PAT}*.patch; do
   else
     base="FAIL"
   fi
-  if ! (cd "$S/sim" && CARGO_TARGET_DIR="$S/target-sim" cargo build --release --offline >"$S/build.log" 2>&1); then
+  if ! (cd "$S/sim" && CARGO_TARGET_DIR="$S/target-sim" cargo build --release --offline >"$S/build.log" 2>&1 && CARGO_TARGET_DIR="$S/target-sim" cargo build --profile shipped --offline >>"$S/build.log" 2>&1); then
     printf "%s\t%s\t%s\t-\tbuild-failed\t0\t-\n" "$name" "$prop" "$base" | tee -a "$OUT"; fail=1; continue
   fi
   props="$prop"; [ "${ALL:-0}" = 1 ] && props="C04 C05 C06 C12 C17 C18"
